@@ -136,3 +136,31 @@ package indexer
 //@   invariant[C14.loop_eth_index_is_count] ethTxIndex == ixCountTo(block, rangeindex + 1)
 //@   invariant[C14.loop_records_counted] forall m int :: (0 <= m && 2 * m < batchLen[payload(batch)]) ==> (ixElig(block, txResultDecTxIndex(batchVal[payload(batch)][2 * m])) && txResultDecEthTxIndex(batchVal[payload(batch)][2 * m]) == ixCountTo(block, txResultDecTxIndex(batchVal[payload(batch)][2 * m])))
 //@   invariant[C14.loop_tx_src_frame] forall r ref :: !fresh(r) ==> txSrc[r] == old(txSrc[r])
+
+// ---------------------------------------------------------------------------------------------
+// Lookups (C14): by hash, and by (block, eth index) through the stored hash — "both lookups agree with each other":
+// getByBlockAndIndex(n, i) is getByTxHash of the hash stored under the index key, and IndexBlock stages the two
+// entries of a record so that exactly this composition returns the record (loop_records: keys[2m] ==
+// txHashKeyOf(hashOfBytes(vals[2m+1])), keys[2m+1] == txIndexKeyOf(height, eth index of vals[2m])).
+// ---------------------------------------------------------------------------------------------
+// codec.ProtoCodec.Unmarshal (cosmos-sdk v0.50.10 codec/proto_codec.go) on the TxResult record — trusted summary
+//@ func (c codec.BinaryCodec) Unmarshal(bz []byte, ptr proto.Message) (err error)
+//@   assumed
+//@   requires typeof(ptr) == type(*evertypes.TxResult)
+//@   modifies unbox(ptr, type(*evertypes.TxResult)).Height, unbox(ptr, type(*evertypes.TxResult)).TxIndex, unbox(ptr, type(*evertypes.TxResult)).EthTxIndex, unbox(ptr, type(*evertypes.TxResult)).Failed
+//@   ensures err == nil ==> (unbox(ptr, type(*evertypes.TxResult)).Height == txResultDecHeight(bytes(bz)) && unbox(ptr, type(*evertypes.TxResult)).TxIndex == txResultDecTxIndex(bytes(bz)) && unbox(ptr, type(*evertypes.TxResult)).EthTxIndex == txResultDecEthTxIndex(bytes(bz)) && unbox(ptr, type(*evertypes.TxResult)).Failed == txResultDecFailed(bytes(bz)))
+//@   panics never
+
+//@ func (kv *KVIndexer) getByTxHash(hash common.Hash) (res *evertypes.TxResult, err error)
+//@   requires kv != nil && kv.db != nil && kv.clientCtx.Codec != nil
+//@   modifies nothing
+//@   ensures[C14.by_hash_found] err == nil ==> (res != nil && fresh(res) && dbHas[payload(kv.db)][txHashKeyOf(hash)] && res.Height == txResultDecHeight(dbVal[payload(kv.db)][txHashKeyOf(hash)]) && res.TxIndex == txResultDecTxIndex(dbVal[payload(kv.db)][txHashKeyOf(hash)]) && res.EthTxIndex == txResultDecEthTxIndex(dbVal[payload(kv.db)][txHashKeyOf(hash)]) && res.Failed == txResultDecFailed(dbVal[payload(kv.db)][txHashKeyOf(hash)]))
+//@   ensures[C14.by_hash_absent] !dbHas[payload(kv.db)][txHashKeyOf(hash)] ==> (err != nil && res == nil)
+//@   panics[C14.by_hash_never_panics] never
+
+//@ func (kv *KVIndexer) getByBlockAndIndex(blockNumber int64, txIndex int32) (res *evertypes.TxResult, err error)
+//@   requires kv != nil && kv.db != nil && kv.clientCtx.Codec != nil
+//@   modifies nothing
+//@   ensures[C14.by_index_is_by_hash_of_stored_hash] err == nil ==> (res != nil && dbHas[payload(kv.db)][txIndexKeyOf(blockNumber, txIndex)] && dbHas[payload(kv.db)][txHashKeyOf(hashOfBytes(dbVal[payload(kv.db)][txIndexKeyOf(blockNumber, txIndex)]))] && res.Height == txResultDecHeight(dbVal[payload(kv.db)][txHashKeyOf(hashOfBytes(dbVal[payload(kv.db)][txIndexKeyOf(blockNumber, txIndex)]))]) && res.EthTxIndex == txResultDecEthTxIndex(dbVal[payload(kv.db)][txHashKeyOf(hashOfBytes(dbVal[payload(kv.db)][txIndexKeyOf(blockNumber, txIndex)]))]) && res.TxIndex == txResultDecTxIndex(dbVal[payload(kv.db)][txHashKeyOf(hashOfBytes(dbVal[payload(kv.db)][txIndexKeyOf(blockNumber, txIndex)]))]) && res.Failed == txResultDecFailed(dbVal[payload(kv.db)][txHashKeyOf(hashOfBytes(dbVal[payload(kv.db)][txIndexKeyOf(blockNumber, txIndex)]))]))
+//@   ensures[C14.by_index_absent] !dbHas[payload(kv.db)][txIndexKeyOf(blockNumber, txIndex)] ==> (err != nil && res == nil)
+//@   panics[C14.by_index_never_panics] never
